@@ -655,9 +655,10 @@ func (s *Store[K, V]) sinkWrite(item WriteBufItem[K, V]) {
 		entry.flag.SetFromNVM(item.fromNVM)
 	}
 
-	// ignore removed entries, except code NEW
-	// which will reset removed flag
-	if entry.flag.IsRemoved() && item.code != NEW {
+	// ignore removed entries, except code NEW which will reset removed flag,
+	// and code REMOVE: when the entry was evicted or expired after Delete had
+	// already taken it out of the map, nobody has notified the listener yet
+	if entry.flag.IsRemoved() && item.code != NEW && item.code != REMOVE {
 		return
 	}
 
